@@ -5,8 +5,8 @@ HERE = os.path.dirname(os.path.dirname(os.path.abspath(__file__)))
 props = [json.loads(l) for l in open(os.path.join(HERE, 'properties.jsonl'))]
 meta = json.load(open(os.path.join(HERE, 'contracts', 'properties.json')))
 claimed = [p['id'] for p in props if meta.get(p['id'], {}).get('claimed')]
-COMMON_NOTE = ("Trusted base: Verus 0.2026.09.13 + bundled Z3; the mechanical extractor tools/extract.py and its rewrites R1-R13 "
-               "(DESIGN.md section 1); the hypothesis predicates on the element type (h_num etc.: operators total and equal to their "
+COMMON_NOTE = ("Trusted base: Verus 0.2026.09.13 + bundled Z3; the mechanical extractor tools/extract.py and its rewrites R1-R19 "
+               "(DESIGN.md sections 1 and 10.3); the hypothesis predicates on the element type (h_num etc.: operators total and equal to their "
                "spec terms, clone is identity, == decides equality) which are idealisations for f64; every external_body / "
                "assume_specification / uninterpreted spec function listed in the evidence file's trusted_base. ")
 m = {
